@@ -1,6 +1,7 @@
 package props
 
 import (
+	"reflect"
 	"bytes"
 	"encoding/binary"
 	"fmt"
@@ -436,6 +437,24 @@ var c17 = newChk("C17", "accessor-vs-raw",
 		}
 		if got != want {
 			return obs.Failf("C17/"+a.name, want, "%s   (raw value %x, state %d)", got, clipb(c.Val), c.State)
+		}
+		// what the accessor returned belongs to the caller: overwriting it in place (every byte slice reachable from the
+		// result: addresses, masks, payloads) changes neither the packet nor what the accessor returns next time, for
+		// this packet or any other
+		if m := reflect.ValueOf(p).MethodByName(a.name); m.IsValid() && m.Type().NumIn() == 0 {
+			outs := m.Call(nil)
+			touched := 0
+			for _, o := range outs {
+				if o.CanInterface() {
+					touched += scribbleValue(o.Interface(), 0xA5)
+				}
+			}
+			if touched > 0 {
+				if again := a.lib(p); again != want {
+					return obs.Failf("C17/"+a.name+"/result-shares-memory", want, "%s after an earlier result was overwritten in place (raw value %x)", again, clipb(c.Val))
+				}
+				rec.Class("accessor result overwritten, read again")
+			}
 		}
 		// the accessor must not have changed the stored bytes
 		if c.State == 0 && !bytes.Equal(p.Options[a.code], c.Val) {
